@@ -105,6 +105,17 @@ func (c *collection) deleteWithFilter(
 			DocID:             docID,
 		}
 
+		clientDocID, err := client.NewDocIDFromString(docID)
+		if err != nil {
+			return nil, err
+		}
+
+		// As in Delete: the secondary index entries of the document must go with it.
+		err = c.deleteIndexedDocWithID(ctx, clientDocID)
+		if err != nil {
+			return nil, err
+		}
+
 		// Delete the document that is associated with this DS key we got from the filter.
 		err = c.applyDelete(ctx, primaryKey)
 		if err != nil {
